@@ -88,6 +88,7 @@ type imp struct {
 // the property statements against the code; every line names the clause it serves).
 var propImports = map[string][]imp{
 	"C01": {
+		{"C01.17/one-delivery-per-context", "C06", "one publication yields one receive per context: the SUB receiver queues a message once for a context however many of its subscriptions match", []string{"C06.2/receiver"}},
 		{"C01.16/cooked-bus-header", "C08", "a cooked BUS socket sends the body alone: a stale header of any length is discarded, not put on the wire in front of it", []string{"C08.2/bus-receive|bus.SendMsg"}},
 		{"C01.14/delivered-private", "C17", "a message handed to one receiver is not the buffer handed to another: what one does with its copy cannot change what the other reads", []string{"C17.3/shared-queue", "C17.6/unique-sites"}},
 		{"C01.15/ownership", "C17", "a message on its way is not released while something still holds and re-sends it (a recycled buffer arrives with another message's bytes)", []string{"C17.1/E5"}},
